@@ -64,6 +64,8 @@ type hist struct {
 	mkTarget func() target.Target
 	// schemaDec / cacheDec, if set, decorate the collaborators of the next datastore
 	schemaDec func(dschema.Client) dschema.Client
+	// noOrphan: never draw only-intended deletes (they leave unmanaged values on the device)
+	noOrphan bool
 }
 
 type histRun struct {
@@ -187,7 +189,7 @@ func (r *histRun) genStep(maxIntents int) []stepIntent {
 		switch {
 		case cur != nil && act < 3:
 			si.Delete, si.Prio, si.Kind = true, cur.Prio, "delete"
-		case cur != nil && act == 3:
+		case cur != nil && act == 3 && !r.h.noOrphan:
 			si.Delete, si.Orphan, si.Prio, si.Kind = true, true, cur.Prio, "orphan"
 		case cur != nil && act == 4:
 			// re-submit verbatim
